@@ -216,9 +216,25 @@ theorem conf_comma_or_space {q : Bool} {k : List T} {t : List Char} :
   rcases h with h | h
   all_goals exact h.1
 
+/-- a repetition, kept folded (taken apart by `starOf_sep` or by induction) -/
+def StarOf (a : G) (q : Bool) (k : List T) (t : List Char) : Prop := StarConf (Conf a q) k t
+
+theorem conf_star {a : G} {q : Bool} {k : List T} {t : List Char} :
+    Conf (.star a) q k t ↔ StarOf a q k t := Iff.rfl
+
+/-- `(sep ~ g)*`: every pair is a pair of `g` -/
+theorem starOf_sep {g : G} {sep : List Char} {Q : T → Prop}
+    (hg : ∀ k t, Conf g false k t → ∃ x, k = [x] ∧ Q x) {k : List T} {t : List Char}
+    (h : StarOf (.seq (.str sep) g) false k t) : ∀ x ∈ k, Q x := by
+  refine StarConf.forall_mem ?_ h
+  intro k t hkt x hx
+  obtain ⟨k3, t3, k4, t4, ⟨rfl, -⟩, h4, rfl, -⟩ := hkt
+  obtain ⟨x4, rfl, hx4⟩ := hg _ _ h4
+  simp at hx; subst hx; exact hx4
+
 /-- as `conf_unfold`, for the non-lexical rules: optional punctuation is not taken apart -/
 macro "conf_unfoldk" "[" ts:Lean.Parser.Tactic.simpLemma,* "]" "at" h:ident : tactic =>
-  `(tactic| simp only [↓conf_opt_str, ↓conf_opt_space, ↓conf_opt_sep, ↓conf_comma_or_space,
+  `(tactic| simp only [↓conf_opt_str, ↓conf_opt_space, ↓conf_opt_sep, ↓conf_comma_or_space, ↓conf_star,
       Conf, Bool.false_eq_true, Bool.or_true, Bool.or_false,
       Bool.or_self, ↓reduceIte, List.append_nil, List.nil_append, List.cons_append, List.append_assoc,
       PExpr.rep, PExpr.plus, $ts,*] at $h:ident)
@@ -246,6 +262,9 @@ macro_rules
       error_bind, panic_def, unexpected_def, ↓reduceIte, List.cons_append, List.nil_append, $ts,*])
 
 /-- one `let x ← e` of a do-block: `e` is safe by a hypothesis -/
-macro "safe_bind" : tactic => `(tactic| (refine Safe.bind (by assumption) ?_; intro _ _))
+macro "safe_bind" : tactic =>
+  `(tactic| ((first
+      | refine Safe.bind (by assumption) ?_
+      | refine Safe.bind (by apply_assumption; assumption) ?_); intro _ _))
 
 end OH.Proofs.SynTotal
